@@ -410,12 +410,17 @@ _c08_thorough = [run("hm", "set_" + r, c=1, opt={"ops": 0x97}, weight=3 if r == 
     [run("hm", t, c=1, variant="dbg", opt={"ops": 0xa7}, weight=1) for t in ["map_b1_hp", "map_b1_memo_scr_ebr", "set_hp"]] + \
     [run("hm", "map_b1_memo_scr_hp", c=0, opt={"T": 1, "m": 5, "ops": 0x1ff}, weight=3), run("hm", "set_hp", c=0, opt={"T": 1, "m": 6, "ops": 0x9f}, weight=3),
      run("hm", "map_b2_memo_scr_hp", c=0, opt={"T": 1, "m": 4, "ops": 0x1ff, "keys": 3}, weight=3), run("hm", "set_greater_hp", c=0, opt={"T": 1, "m": 5, "ops": 0x9f, "keys": 3}, weight=3)]
+# sequential sweeps: 1..64 buckets, up to 16 (40) keys, scrambled fill, five thinning patterns by erase(key) / find+erase(iterator) / erasing traversal, refill, emptying traversal
+_hm_sweeps = ["set_hp", "set_ebr", "set_lfrc", "map_b1_hp", "map_b5_memo_hp", "map_b8_hp", "map_b8_memo_scr_ebr", "map_b16_const_hp", "map_b16_lfrc", "map_b64_stamp", "map_mk_b8_hp"]
+_c08_quick += [run("hm", "sweep_" + t, c=0, weight=0.15) for t in _hm_sweeps]
+_c08_thorough += [run("hm", "sweep_" + t, c=0, opt={"maxn": 40}, weight=0.5) for t in _hm_sweeps]
 PLAN["C08"] = {
     "quick": _c08_quick, "thorough": _c08_thorough, "budget_s": {"quick": 170, "thorough": 1300},
     "rule": "programs: T threads x m operations over subsets of {emplace, erase(key), contains, find, emplace_or_get, get_or_emplace, get_or_emplace_lazy, erase(find(key)), "
             "operator[]} on 1-3 keys (all assignments; programs without update, without a key shared by two threads, and symmetric duplicates pruned), all prefill subsets, "
             "final iteration as a snapshot operation; bucket counts 1-2, memoize_hash on/off, identity / constant / order-scrambling hash functors, std::greater compare; "
-            "heap in quarantine and in immediate-reuse (ABA) mode; sequential runs: all sequences of depth 4-6 over the full alphabet; oracle: Wing-Gong linearizability "
+            "heap in quarantine and in immediate-reuse (ABA) mode; sequential runs: all sequences of depth 4-6 over the full alphabet; sequential sweeps over 1 / 5 / 8 / 16 / 64 "
+            "buckets with up to 16 (40) keys (contains, find and a full traversal compared with a reference after every phase); oracle: Wing-Gong linearizability "
             "against a sequential map incl. value identity (erase(iterator) may have removed the element itself or lost the race to another remover)",
     "assumptions": [],
 }
@@ -428,7 +433,8 @@ _it_seq = ["iset_hp", "imap_b1_hp", "imap_b1_memo_hp", "imap_b1_memo_scr_hp", "i
 _it_conc = ["iset_hp", "iset_hpd", "iset_he", "iset_qsbr", "iset_ebr", "iset_nebr", "iset_debra", "iset_stamp", "iset_lfrc",
             "imap_b1_hp", "imap_b1_memo_scr_hp", "imap_b2_memo_scr_hp", "imap_b1_ebr", "imap_b1_memo_scr_ebr", "imap_b1_he", "imap_b1_stamp", "imap_b1_lfrc"]
 PLAN["C09"] = {
-    "quick": [run("hm", t, c=0, opt={"updaters": 0, "steps": 3}, weight=0.3) for t in _it_seq] +
+    "quick": [run("hm", "sweep_" + t, c=0, weight=0.15) for t in _hm_sweeps] +  # traversals / erase(iterator) over long lists and many empty buckets
+             [run("hm", t, c=0, opt={"updaters": 0, "steps": 3}, weight=0.3) for t in _it_seq] +
              [run("hm", t, c=1, opt={"keys": 2}, weight=2 if "stamp" in t else 1) for t in _it_conc] +
              [run("hm", t, c=2, opt={"keys": 2, "m": 1}, weight=3) for t in ["iset_lfrc", "imap_b1_memo_scr_hp"]] +
              [run("hm", t, c=1, heap="reuse", opt={"keys": 2}, weight=1) for t in ["iset_he", "iset_hp"]],
